@@ -123,6 +123,18 @@ pub struct Ev {
     pub val: i64,
 }
 
+/// Protocol defects that can be switched on in the model (self-test of layer 2: each of them is a
+/// defect the pinned commit really had, and the exploration must find it).
+#[derive(Clone, Copy, Debug, PartialEq, Eq)]
+pub enum Bug {
+    /// the feeder returns on a read error before the stop tokens are sent and without stopping the hasher
+    ReturnBeforeStop,
+    /// a worker that meets an invalid frame dies without handing its buffer back
+    WorkerDiesOnBadFrame,
+    /// one stop token too few
+    OneStopTokenShort,
+}
+
 #[derive(Clone, Debug)]
 pub struct ParModel {
     pub w: usize,
@@ -131,6 +143,8 @@ pub struct ParModel {
     pub process_cap: usize,
     /// whether the source performs an (empty) fill on the end-of-input read
     pub fill_at_end: bool,
+    /// seeded protocol defect (None = the protocol as implemented)
+    pub bug: Option<Bug>,
 }
 
 pub enum StepResult {
@@ -283,6 +297,8 @@ impl ParModel {
                     if go_on {
                         n.frame_count += 1;
                         n.feeder = FPc::SendEncode(b);
+                    } else if self.bug == Some(Bug::ReturnBeforeStop) && s.feed_err {
+                        n.feeder = FPc::Returned(Outcome::ErrSource);
                     } else {
                         n.feeder = if self.w > 0 { FPc::SendStop(0) } else { FPc::CtxStop };
                     }
@@ -301,7 +317,8 @@ impl ParModel {
                         return StepResult::Disabled;
                     }
                     n.encode.push(-1);
-                    n.feeder = if (i as usize) + 1 < self.w { FPc::SendStop(i + 1) } else { FPc::CtxStop };
+                    let last = if self.bug == Some(Bug::OneStopTokenShort) { self.w.saturating_sub(1).max(1) } else { self.w };
+                    n.feeder = if (i as usize) + 1 < last { FPc::SendStop(i + 1) } else { FPc::CtxStop };
                     StepResult::Moved(n, ev("send", 1, -1))
                 }
                 FPc::CtxStop => {
@@ -361,6 +378,12 @@ impl ParModel {
                             }
                             n.holding[wi] = Some((no, blk, valid));
                             n.workers[wi] = WPc::Unlock(b);
+                            if self.bug == Some(Bug::WorkerDiesOnBadFrame) && !valid {
+                                // `unreachable!()` while the guard is alive: the lock is released by unwinding
+                                n.buf_lock[b as usize] = None;
+                                n.holding[wi] = None;
+                                n.workers[wi] = WPc::Panicking;
+                            }
                         }
                         _ => {
                             // `expect(FRAMENUM_NOT_SET)` fires while the guard is alive
